@@ -42,6 +42,10 @@ def gen_cases(seed, tier):
     real = [("zuko", "torch"), ("zuko", "numpy")] if tier == "quick" else [("zuko", "torch"), ("zuko", "numpy"), ("zuko", "jax")] * 3 + [("flowjax", "jax"), ("flowjax", "numpy"), ("flowjax", "jax")]
     for j, (backend, xp) in enumerate(real):
         out.insert(j, crash_case(ID, seed, 70000 + j, tier=tier, real_flow=backend, xp=xp))
+    # preconditioning="flow": the map the kernel moves in is a flow that is refitted at every mutation; what such a refit
+    # starts from must not depend on state that only the interrupted process had
+    for j in range(1 if tier == "quick" else 6):
+        out.insert(2 + j, crash_case(ID, seed, 71000 + j, tier=tier, real_flow="zuko", xp=("torch", "numpy", "jax")[j % 3], flowpre=True))
     return out
 
 
@@ -68,6 +72,12 @@ def real_flow_scenario(case):
                            seeds={"rng": int(rng.integers(1 << 30)), "entropy": int(rng.integers(1 << 30)), "train": int(rng.integers(1 << 30)), "torch": int(rng.integers(1 << 30))})
     scn["flow"] = dict(fl)
     scn["_schedule_mode"] = "adaptive"
+    if case.get("flowpre"):
+        scn["preconditioning"] = "flow"
+        scn["preconditioning_kwargs"] = {"fit_kwargs": dict(fit)}
+        scn["dtype"] = "float64"
+        scn["sample_kwargs"] = {"sampler_kwargs": {"n_steps": 1}, "adaptive": False, "n_steps": 3}
+        scn["checkpoint"] = {"mode": "path", "every": 1}
     scn["_precond"] = scn["preconditioning"]
     return scn
 
@@ -96,7 +106,7 @@ def run_case(case, workdir):
         scn, workdir, want=WANT, rng=rng,
         routes=case.get("routes") or ROUTES,
         max_states=case.get("max_states", 4 if quick else (2 if case.get("real_flow") == "flowjax" else None)),
-        max_crash_points=case.get("max_crash_points", (12 if case.get("real_flow") else 60) if quick else
+        max_crash_points=case.get("max_crash_points", (5 if case.get("flowpre") else 12 if case.get("real_flow") else 60) if quick else
                                   ((8 if case.get("real_flow") == "flowjax" else 40) if case.get("real_flow") else None)),
         double_crash=case.get("double_crash", 0 if quick or case.get("real_flow") == "flowjax" else 1),
     )
